@@ -1,6 +1,7 @@
 package main
 
 import (
+	"errors"
 	"fmt"
 	"sort"
 	"strings"
@@ -137,6 +138,60 @@ func (s *Session) checkClean(slot int, dirty bool) string {
 }
 
 // difflinks: C07 on two persisted, unmodified tree slots.
+// execDiffLinksStop: the link callback says "stop" (keepGoing=false) or fails after j events;
+// DiffLinks must then return nil resp. that error, having delivered exactly the first events
+// of the complete run.
+func (s *Session) execDiffLinksStop(oslot, nslot, j int, fail bool) (string, string) {
+	old, nw := s.Trees[oslot], s.Trees[nslot]
+	if old == nil || nw == nil {
+		return "bad-slot", ""
+	}
+	var full []string
+	if err := nw.DiffLinks(s.ctx, old, func(rem bool, link interface{}) (bool, error) {
+		full = append(full, fmt.Sprintf("%v:%v", rem, link))
+		return true, nil
+	}); err != nil {
+		return errClass(err), "DiffLinks failed on a healthy store: " + err.Error()
+	}
+	var got []string
+	calls := 0
+	err := nw.DiffLinks(s.ctx, old, func(rem bool, link interface{}) (bool, error) {
+		calls++
+		if len(got) > j {
+			return false, nil // (already stopped: counted below)
+		}
+		got = append(got, fmt.Sprintf("%v:%v", rem, link))
+		if len(got) > j {
+			if fail {
+				return true, errStop
+			}
+			return false, nil
+		}
+		return true, nil
+	})
+	want := full
+	hit := len(full) > j
+	if hit {
+		want = full[:j+1]
+	}
+	viol := ""
+	switch {
+	case calls > len(want):
+		viol = fmt.Sprintf("the link callback was called %d time(s) after it had stopped the diff", calls-len(want))
+	case strings.Join(got, " ") != strings.Join(want, " "):
+		viol = fmt.Sprintf("a link callback stopping after %d events saw %d events that are not the first events of the complete run", j+1, len(got))
+	case hit && fail && (err == nil || !errors.Is(err, errStop)):
+		viol = fmt.Sprintf("the link callback's error was not returned (got %v)", err)
+	case !(hit && fail) && err != nil:
+		viol = "DiffLinks stopped by its callback returned an error: " + err.Error()
+	}
+	res := "ok"
+	if hit && fail {
+		res = "cberr"
+	}
+	return fmt.Sprintf("%s-%d", res, len(got)), viol
+}
+
 func (s *Session) execDiffLinks(oslot, nslot int) (string, string) {
 	old, nw := s.Trees[oslot], s.Trees[nslot]
 	if old == nil || nw == nil {
